@@ -377,14 +377,15 @@ private:
 			return *this;
 		}
 
-		if (rhs <= -0.25) {
+		// a posit never rounds a non-zero value to zero: minpos = maxpos = 1
+		if (rhs < 0) {
 			_bits = 0x03;   // value is -1, or -maxpos
 		}
-		else if (-0.25 < rhs && rhs < 0.25) {
-			_bits = 0x00;   // value is 0
-		}
-		else if (rhs >= 0.25) {
+		else if (rhs > 0) {
 			_bits = 0x01;   // value is 1, or maxpos
+		}
+		else {
+			_bits = 0x00;   // value is 0
 		}
 		return *this;
 	}
